@@ -87,6 +87,7 @@ func NewCache(s *server) elton.Handler {
 
 		key := getKey(c.Request)
 		httpCache := disp.GetHTTPCache(key)
+		verifPoint("disp.got")
 		cacheStatus, httpResp := httpCache.Get()
 
 		cacheable := false
@@ -105,12 +106,16 @@ func NewCache(s *server) elton.Handler {
 		if cacheStatus == cache.StatusHit {
 			// 设置缓存数据
 			setHTTPResp(c, httpResp)
+			verifPoint("cache.beforeAge")
 			// 设置缓存数据的age
 			setHTTPRespAge(c, httpCache.Age())
 			return nil
 		}
 
 		err = c.Next()
+		if cacheStatus == cache.StatusFetching {
+			verifPoint("cache.fetched")
+		}
 		if err != nil {
 			return err
 		}
